@@ -323,7 +323,10 @@ class JSONGrammar(BaseGrammar):
         """
         self.__schema_builder.add_schema(schema, not merge)
         self.__init_dependencies()
-        self._required_names |= self.__schema_builder.required
+        # Do not use the required names of the schema builder:
+        # it intersects the ones of the schema with its own, which are always empty
+        # once a first schema has been processed.
+        self._required_names |= set(schema.get("required", ()))
         self.__schema_builder.required.clear()
 
     def to_file(self, path: Path | str = "") -> None:
